@@ -3,7 +3,7 @@ CONSTANTS
   PosPeriod = 1
   NegPeriod = 0
   MaxClock = 2
-  MaxCalls = 3
+  MaxCalls = 2
   AllowRChoices = {{}}
   AllowSChoices = {{"R"}}
   RecogAInit = {TRUE}
